@@ -4,6 +4,7 @@ import (
 	"fmt"
 	"math/big"
 	"strings"
+	"verif/harness/internal/sched"
 
 	"github.com/bnb-chain/tss-lib/v2/tss"
 
@@ -236,6 +237,8 @@ func genC11(r *vc.Run) {
 	}
 	// a dishonest Bob written from the paper (wrong public point, s1 = 0 mod q, U chosen after the challenge, the mirrored claim)
 	c13DishonestBob(r, rng{r})
+	// every equation holds, one response just over its bound; secp256k1 first, then P-256
+	c11OverBound(r, rng{r})
 	// the Paillier key proof: prover and verifier against the model (its 13 challenges come from one indexed hash chain)
 	{
 		keys, _ := fixtures()
@@ -251,7 +254,7 @@ func genC11(r *vc.Run) {
 
 // ---------------- C12 ----------------
 func genC12(r *vc.Run) {
-	r.Rule = "accepted proofs of every system under single transformations: every component (sampled indices of the 13/80/128-fold parts) replaced by +1, -1, a random value, its neighbour, zero; every session / statement component perturbed; the same proof offered under another prover's context (index appended to the session); commitment-response shift attacks (alpha + d*G with t + d); verdicts compared with the Coq verifier models; any accepted transformed proof is a violation, except replacing a scalar response by a value congruent modulo the group order; non-trivial = all cases"
+	r.Rule = "accepted proofs of every system under single transformations: every component (sampled indices of the 13/80/128-fold parts) replaced by +1, -1, a random value, its neighbour, zero; every session / statement component perturbed; the same proof offered under another prover's context (index appended to the session); commitment-response shift attacks (alpha + d*G with t + d); verdicts compared with the Coq verifier models; key generation runs under each single compatibility option (SetNoProofFac only, SetNoProofMod only) with the still-wanted proof made undecodable in transit, which must be refused and attributed; any accepted transformed proof is a violation, except replacing a scalar response by a value congruent modulo the group order; non-trivial = all cases"
 	g := rng{r}
 	insts := honestInstances(r, "c12")
 	q := tss.S256().Params().N
@@ -352,6 +355,7 @@ func genC12(r *vc.Run) {
 	_ = q
 	c12Replays(r)
 	c12Shifts(r, insts)
+	c12Options(r)
 	// the challenge derivation itself: with the provers' randomness fixed, model and implementation must produce identical proofs
 	// (a component missing from, or added to, the hashed transcript changes every response)
 	c10Light = true
@@ -498,4 +502,55 @@ func leafAt(args []val.V, p leafPath) *big.Int {
 		return x.X
 	}
 	return nil
+}
+
+// c12Options: the two compatibility options of tss.Parameters are separate: a committee that waives the factorisation
+// proofs (SetNoProofFac) still wants the modulus proofs, and the other way round. Under each single option the proof that
+// is still wanted is made undecodable in transit (emptied, one part dropped, one part emptied): the receiver must refuse it
+// and name the sender.
+func c12Options(r *vc.Run) {
+	type oc struct {
+		name          string
+		mod, fac      bool
+		typ, field    string
+		mustBeRefused bool
+	}
+	cases := []oc{
+		{"NoProofFac-only", false, true, "KGRound2Message2", "modProof", true},
+		{"NoProofMod-only", true, false, "KGRound2Message1", "facProof", true},
+	}
+	for ci, c := range cases {
+		fr := faultRunner{proto: "ecdsa_keygen", cost: 400,
+			build: func(seed int64) *runCtx {
+				return buildECDSAKeygen(2, 1, kgOpts{seed: fmt.Sprintf("c12o-%d", seed), noProofMod: c.mod, noProofFac: c.fac})
+			},
+			judge: func(rc *runCtx, honest []*sched.Node) string { return judgeKeygen(rc, honest, "secp256k1", 1) }}
+		faults := []fault{{"ecdsa_keygen", "N1", c.typ, c.field, -1, "empty"}, {"ecdsa_keygen", "N1", c.typ, c.field, 0, "drop-last"}}
+		if r.Thorough() {
+			faults = append(faults, fault{"ecdsa_keygen", "N1", c.typ, c.field, 1, "empty"}, fault{"ecdsa_keygen", "N1", c.typ, c.field, 0, "append"})
+		}
+		for fi, f := range faults {
+			res := runFault(fr, f, r.Seed+int64(100*ci+fi))
+			desc := fmt.Sprintf("%s under %s", f.String(), c.name)
+			r.Dist["options/"+c.name+"/"+f.Kind]++
+			r.CountCase(desc, res.Applied > 0, fmt.Sprintf("%s => finished=%v culprits=%v", desc, res.Finished, res.Culprits))
+			r.Note("%s: applied=%d finished=%v culprits=%v", desc, res.Applied, res.Finished, res.Culprits)
+			if res.Applied == 0 {
+				continue
+			}
+			if len(res.Finished) > 0 || res.BadOutput != "" {
+				r.Violate("undecodable-proof-accepted|"+c.field+"|"+c.name, fmt.Sprintf("key generation completed although the %s of one participant could not be decoded and only the other kind of proof was waived (%s): finished=%v", c.field, c.name, res.Finished), desc)
+				continue
+			}
+			named := false
+			for _, cs := range res.Culprits {
+				for _, x := range cs {
+					named = named || x == "N1"
+				}
+			}
+			if !named {
+				r.Violate("undecodable-proof-not-attributed|"+c.field+"|"+c.name, fmt.Sprintf("nobody names the sender of an undecodable %s (%s): culprits=%v errors=%v", c.field, c.name, res.Culprits, res.ErrText), desc)
+			}
+		}
+	}
 }
